@@ -411,6 +411,14 @@ func checkC20(c c20Case) verdict {
 		case "generateOTPURL":
 			up := otp.URLParam{Issuer: call.Issuer, AccountName: call.Account, Secret: secret, Digits: otp.Digits(d), Algorithm: otp.Algorithm(a)}
 			var want string
+			if call.Type != "totp" && call.Type != "hotp" {
+				// a type word that is neither of the two: an argument out of range, answered with an error: string
+				labels = append(labels, "unknown-type-word")
+				if sv, _ := got.Value.(string); got.Type != "string" || !strings.HasPrefix(sv, "error:") {
+					return bad(true, labels, "call %d: generateOTPURL(%v) = %v; the type %q is neither totp nor hotp: want a string starting with error:", i, args, got, call.Type)
+				}
+				continue
+			}
 			if call.Type == "totp" {
 				u, _ := otp.GenerateTOTPURL(up)
 				want = u.String()
@@ -427,7 +435,7 @@ func checkC20(c c20Case) verdict {
 }
 
 var c20Main = newPart("C20", "calls",
-	"rapid: call lists (a pure function of the seed) executed by Node against the wasm module built from the working tree and loaded through otp-js/src/index.js; each call is made via globalThis.<name> AND via the object the package exports, followed by a well-formed probe; arguments: counters/timestamps 0..2^53 (boundaries 2^31, 2^32, 2^53), fractional numbers (truncated; a quarter of the lists are related calls under one secret and parameter set with fractions on the time and on the period independently), digits '6','8','9','10' and unknown spellings, three hashes and unknown spellings, periods 1..3600, skews 0..10, codes at window distance -(s+2)..+(s+2) and edited; malformed: every argument position x {undefined, null, NaN, -1, -1.5, 1e300, 2^63, +-Infinity, true, {}, [], a BigInt, a boxed String / Number object, a Symbol, a function, a Date, wrong-kind string/number, empty string}, too few / too many arguments (the surplus one a string, undefined once or twice, null), skew 11, period 0; plus two grids run through the same check (malformed-grid: every function x argument position x odd value x contexts period {1,7,10,30,3600} x skew {0,1,10}; related-fractions: runs of steps with fractional periods and instants on both sides of every boundary under one secret); oracle: native library AND independent reference for well-formed calls, 'error:' string for malformed ones, probe still correct; non-trivial = distance != 0 or digits != '6' or edited code or fractional number or malformed",
+	"rapid: call lists (a pure function of the seed) executed by Node against the wasm module built from the working tree and loaded through otp-js/src/index.js; each call is made via globalThis.<name> AND via the object the package exports, followed by a well-formed probe; arguments: counters/timestamps 0..2^53 (boundaries 2^31, 2^32, 2^53), fractional numbers (truncated; a quarter of the lists are related calls under one secret and parameter set with fractions on the time and on the period independently), digits '6','8','9','10' and unknown spellings, three hashes and unknown spellings (among them stored spellings whose hash under one of 13 cheap 32-bit hash functions equals that of a known word; also as the URL type word, which must be refused), periods 1..3600, skews 0..10, codes at window distance -(s+2)..+(s+2) and edited; malformed: every argument position x {undefined, null, NaN, -1, -1.5, 1e300, 2^63, +-Infinity, true, {}, [], a BigInt, a boxed String / Number object, a Symbol, a function, a Date, wrong-kind string/number, empty string}, too few / too many arguments (the surplus one a string, undefined once or twice, null), skew 11, period 0; plus two grids run through the same check (malformed-grid: every function x argument position x odd value x contexts period {1,7,10,30,3600} x skew {0,1,10}; related-fractions: runs of steps with fractional periods and instants on both sides of every boundary under one secret); oracle: native library AND independent reference for well-formed calls, 'error:' string for malformed ones, probe still correct; non-trivial = distance != 0 or digits != '6' or edited code or fractional number or malformed",
 	checkC20)
 
 func drawC20Call(t *rapid.T) c20Call {
@@ -441,6 +449,14 @@ func drawC20Call(t *rapid.T) c20Call {
 	c.Sp = gen.DrawSpelling(t)
 	c.Dig = rapid.SampledFrom([]string{"6", "8", "9", "10", "6", "8", "10", "7", "06", "six", "11", " 6"}).Draw(t, "dig")
 	c.Alg = rapid.SampledFrom([]string{"SHA1", "SHA256", "SHA512", "SHA1", "SHA256", "SHA512", "sha1", "MD5", "SHA-512"}).Draw(t, "alg")
+	// unknown spellings that a table of hashed option words would take for known ones (stored preimages under cheap 32-bit
+	// hashes): they mean what any unknown spelling means — the native library's helpers decide
+	switch rapid.IntRange(0, 11).Draw(t, "preimageQ") {
+	case 0:
+		c.Dig = rapid.SampledFrom(spellingsLike("8", "9", "10")).Draw(t, "digPre")
+	case 1:
+		c.Alg = rapid.SampledFrom(spellingsLike("SHA256", "SHA512")).Draw(t, "algPre")
+	}
 	c.Period = rapid.SampledFrom([]int{1, 29, 30, 30, 60, 3600}).Draw(t, "period")
 	if rapid.Bool().Draw(t, "periodAny") {
 		c.Period = rapid.IntRange(1, 3600).Draw(t, "periodR")
@@ -492,6 +508,9 @@ func drawC20Call(t *rapid.T) c20Call {
 	}
 	if c.Fn == "generateOTPURL" {
 		c.Type = rapid.SampledFrom([]string{"totp", "hotp"}).Draw(t, "type")
+		if rapid.IntRange(0, 7).Draw(t, "typePreQ") == 0 {
+			c.Type = rapid.SampledFrom(append(spellingsLike("totp", "hotp"), "TOTP", "steam", "")).Draw(t, "typePre")
+		}
 		c.Issuer = drawURLString(t, "iss", false)
 		c.Account = drawURLString(t, "acc", true)
 		// the secret is copied into the URL as given: any spelling (padded, lower case, surrounded by blanks)
